@@ -156,10 +156,32 @@ def match_known(known, sig):
     return None
 
 
-def finish(prop, tier, t0, results, items, assumptions, bounds, replay_fn=None, extra_cov=None, seed=0,
+SELFTEST_PARTS = {
+    'reader': ['lazybytes', 'lazyarr', 'struct', 'lru', 'zfpy', 'reader'],
+    'writer': ['lazybytes', 'lazyarr', 'struct', 'zfpy', 'segy', 'reader'],
+    'C16': ['zfpy'], 'C19': ['struct'], 'C13': ['lazyarr', 'lru', 'reader'],
+}
+SELFTEST_OF = dict(C02='reader', C14='reader', C07='reader', C15='reader', C17='reader', C18='reader', C10='reader', C12='reader',
+                   C01='writer', C03='writer', C04='writer', C05='writer', C08='writer', C09='writer', C11='writer', C20='writer',
+                   C16='C16', C19='C19', C13='C13')
+
+
+def finish(prop, tier, t0, results, items, assumptions, bounds, replay_fn=None, extra_cov=None, seed=None,
            validated=0, extra_samples=None, level='model_checking'):
     """Triage candidates (replay on the real code), print verdict lines, write evidence, return exit code."""
     known = load_known(prop)
+    if seed is None:
+        try:
+            seed = int(os.environ.get('VERIF_SEED', '0'))
+        except ValueError:
+            seed = 0
+    selftest_bad = []
+    selftest_parts = SELFTEST_PARTS.get(SELFTEST_OF.get(prop, ''), [])
+    if selftest_parts and os.environ.get('VERIF_NO_SELFTEST') != '1':
+        from . import selftest
+        n_ok, selftest_bad = selftest.run(selftest_parts, tier, seed)
+        validated += n_ok
+    n_selftest = validated
     stats = dict(paths=0, aborted_paths=0, queries=0, solver_s=0.0, unknown=0, obligations=0, discharged=0,
                  nonlinear=0, memo_hits=0)
     funcs, not_encoded, undecided, errors, samples, budget = set(), [], [], [], [], []
@@ -260,6 +282,7 @@ def finish(prop, tier, t0, results, items, assumptions, bounds, replay_fn=None, 
                                              detail=str(u['replay'].get('detail'))[:300]) for u in unreproduced[:10]],
                reachability=reach, item_errors=errors[:10],
                exhaustive=False)
+    cov['stub_validation'] = dict(parts=selftest_parts, cases_agreeing_with_the_real_library=n_selftest, mismatches=selftest_bad)
     if extra_cov:
         cov.update({k: v for k, v in extra_cov.items() if k not in ('must_reach', 'must_reach_suffix')})
     ev = dict(property_id=prop, tier=tier, seed=seed, level=level, coverage=cov, assumptions=assumptions,
@@ -274,6 +297,10 @@ def finish(prop, tier, t0, results, items, assumptions, bounds, replay_fn=None, 
               stats['solver_s'], wall))
     if violations:
         return EXIT_VIOLATION
+    if selftest_bad:
+        for e in selftest_bad[:5]:
+            print("HARNESS-ERROR stub validation against the real library failed (nothing claimed): " + e[:500])
+        return EXIT_HARNESS
     if errors:
         for e in errors[:5]:
             print("HARNESS-ERROR " + e[:600])
